@@ -127,7 +127,7 @@ fn huff_profile_cases(r: &mut Rng, t: Tier, fam: &str, ops: &[&str], extra: &[&s
         for e in extra {
             c.l(e.to_string());
         }
-        tree_queries(r, &mut c, &v, ty.1, 300, ops);
+        tree_queries(r, &mut c, &v, ty.1, 300, ops, true);
         out.push(c);
     }
 }
